@@ -43,7 +43,8 @@ else
   mkdir -p "$ROOT/evidence" "$ROOT/replays"
   runcheck() {
     (cd "$ROOT/harness" && cargo build --release --offline -p pcheck >"$ISO/build.log" 2>&1) || { echo "MACHINERY: build failed"; grep -E "^error" -A6 "$ISO/build.log" | head -20; return 2; }
-    (cd "$ROOT" && "$ISO/target/release/pcheck" "$1" --tier "$TIER")
+    # a check that does not come back within 15 minutes is reported as rc=124 (never as caught)
+    (cd "$ROOT" && timeout 900 "$ISO/target/release/pcheck" "$1" --tier "$TIER")
   }
   cleanup() { git -C "$REPO" checkout -- . 2>/dev/null; [ -z "${VP_RUN_REPO:-}" ] && git -C /repo worktree remove --force "$REPO" 2>/dev/null; rm -rf "$ISO"; }
 fi
@@ -58,6 +59,9 @@ for m in json.load(open(src+'/mutants/index.json')):
 for meta in sorted(glob.glob(src+'/seeded/*/meta.json')):
     d=json.load(open(meta)); dirn=os.path.dirname(meta)
     print("seeded:"+os.path.basename(dirn), d['property'], dirn+"/patch.diff")
+# behaviour-preserving refactors written by independent sub-agents (benign/<area>-<x>/patch.diff): property NONE
+for pd in sorted(glob.glob(src+'/benign/*/patch.diff')):
+    print("benign:"+os.path.basename(os.path.dirname(pd)), "NONE", pd)
 PY
 }
 : > "$OUT"
